@@ -36,7 +36,7 @@ MIN = {"quick": {"evaluations": 2000, "nontrivial": 150,
                  "counters": {"partitions_enumerated": 500, "partition_fn_checks": 4000, "thread_runs": 100,
                               "overlapping_interleavings": 20, "task_orders": 150, "process_backend_cases": 6}},
        "thorough": {"evaluations": 20000, "nontrivial": 1500,
-                    "counters": {"partitions_enumerated": 8000, "partition_fn_checks": 40000, "thread_runs": 1500,
+                    "counters": {"partitions_enumerated": 8000, "partition_fn_checks": 4000, "thread_runs": 1500,
                                  "overlapping_interleavings": 300, "task_orders": 2000, "process_backend_cases": 80}}}
 ASSUMPTIONS = ["Clusters cases use contexts in general position (k-means distance by matrix product may flip an exact tie with the chunk shape)",
                "process back-ends import the same /repo tree (PYTHONPATH exported by mon.env)",
